@@ -50,7 +50,7 @@ func (Implementation) Dlarft(direct lapack.Direct, store lapack.StoreV, n, k int
 	case len(tau) < k:
 		panic(shortTau)
 	case ldt < max(1, k):
-		panic(shortT)
+		panic(badLdT)
 	}
 
 	if n == 0 {
